@@ -156,7 +156,7 @@ static void explore_combo(int bound) {
 restart:
 	USE_W = 1; typedef struct { uint8_t *p; int n, pre; } item; static item *stack; if (!stack) stack = (item *)malloc(sizeof(item) * 2000000); int sp = 0; stack[sp++] = (item){ NULL, 0, 0 }; uint64_t sched_here = 0; NOUTC = 0;
 	while (sp) { item it = stack[--sp]; if (vh_deadline_hit()) { vh_capped = 1; free(it.p); continue; } run_schedule(it.p, it.n); NSCHED++; NEXEC++; sched_here++; vh_index++; vh_cases++; vh_block_cases++;
-		int judged = !vh_replay_block || vh_replay_index == vh_index; char pre[300] = ""; for (int i = 0, o = 0; i < it.n && o < 280; i++) if (it.p[i]) o += snprintf(pre + o, sizeof pre - o, "%d:%d,", i, it.p[i]);
+		int judged = !vh_replay_block || vh_replay_index == vh_index; if (vh_replay_block && vh_index > vh_replay_index) { free(it.p); while (sp) free(stack[--sp].p); break; } char pre[300] = ""; for (int i = 0, o = 0; i < it.n && o < 280; i++) if (it.p[i]) o += snprintf(pre + o, sizeof pre - o, "%d:%d,", i, it.p[i]);
 		if (CRASHED) { if (judged) { char key[240]; snprintf(key, sizeof key, "C20:crash:%s", cn); vh_viol(key, "\"schedule\":\"%s\"", pre); } free(it.p); continue; }
 		if (DIVERGED) vh_harness_error("schedule prefix diverged on replay (%s, %s)", cn, pre);
 		if (NNEWW) { /* new conflict granules: report as data race, add to W, restart this combination */ for (int i = 0; i < NNEWW && NW < MAXW; i++) { uintptr_t a = NEWW[i] << 3; const char *sy = symbol_of(a); char sb[100]; snprintf(sb, sizeof sb, "%s", sy); char *plus = strchr(sb, '+'); if (plus) *plus = 0; if (judged && (a >= (uintptr_t)__data_start && a < (uintptr_t)_end)) { char key[240]; snprintf(key, sizeof key, "C20:shared-writable-state:%s", sb); vh_viol(key, "\"combination\":\"%s\",\"symbol\":\"%s\",\"schedule\":\"%s\"", cn, sy, pre); } else if (judged) { char key[240]; snprintf(key, sizeof key, "C20:conflicting-access:%s", cn); vh_viol(key, "\"where\":\"%s\",\"schedule\":\"%s\"", sy, pre); } WSET[NW++] = NEWW[i]; W_DIRTY = 1; }
@@ -168,7 +168,10 @@ restart:
 		/* partial-order reduction: with an empty conflict set the only dependencies between tasks are the pipes inside a handshake pair, so at a
 		   point where the running task blocks or ends the choice among the OTHER tasks commutes; for 4-task combinations (two independent
 		   handshakes: 3^k such choices) only the default is followed there (the start order is still enumerated) */
-		for (int i = it.n; i < NTR; i++) { int cost = it.pre; if (NT >= 4 && NW == 0 && i > 0 && !TR[i].cur_enabled) continue; for (int alt = 1; alt < TR[i].n; alt++) { int c2 = cost + (TR[i].cur_enabled ? 1 : 0); if (c2 > bound) continue; if (sp >= 1999990) { vh_capped = 1; break; } uint8_t *np = (uint8_t *)malloc(i + 1); for (int j = 0; j < i; j++) np[j] = TR[j].c; np[i] = (uint8_t)alt; stack[sp++] = (item){ np, i + 1, c2 }; } /* choices already taken along the default continuation add no cost */ }
+		/* a seeded shared table makes tens of thousands of scheduling points per run: alternatives are expanded at the first 400 points only and the run is
+		   reported as capped (the conflict itself has been reported by then) */
+		int lim = NTR; if (lim > 400) { lim = 400; vh_capped = 1; }
+		for (int i = it.n; i < lim; i++) { int cost = it.pre; if (NT >= 4 && NW == 0 && i > 0 && !TR[i].cur_enabled) continue; for (int alt = 1; alt < TR[i].n; alt++) { int c2 = cost + (TR[i].cur_enabled ? 1 : 0); if (c2 > bound) continue; if (sp >= 1999990) { vh_capped = 1; break; } uint8_t *np = (uint8_t *)malloc(i + 1); for (int j = 0; j < i; j++) np[j] = TR[j].c; np[i] = (uint8_t)alt; stack[sp++] = (item){ np, i + 1, c2 }; } /* choices already taken along the default continuation add no cost */ }
 		free(it.p); }
 	if (vh_shard == 0 || 1) vh_sample("{\"combination\":\"%s\",\"bound\":%d,\"schedules\":%llu,\"conflict_granules\":%d,\"distinct_outcomes\":%d}", cn, bound, (unsigned long long)sched_here, NW, NOUTC);
 }
